@@ -41,6 +41,21 @@
 (*                                                                                 *)
 (* A system state is [res : index of the current array (the last result),          *)
 (*                    arrs : Seq(array)] - every array object seen so far.         *)
+(*                                                                                 *)
+(* WRITEABILITY AND HISTORIES.  Every array also carries  w  (numpy's WRITEABLE     *)
+(* flag) and  lin  (its lineage: the index of the table built by the caller from    *)
+(* which it derives through conversions).  The initial array is writable ("w"),     *)
+(* locked with setflags ("ro"), a read-only view of a writable array ("roview") or  *)
+(* built over immutable memory ("frombuf": np.frombuffer over bytes, a mode='r'     *)
+(* memmap).  A conversion may be REJECTED (raise) only when it is asked to work in  *)
+(* place on a non-writable array; a rejected call is a STUTTER step: every array    *)
+(* keeps its bytes, dtype, flags and buffer.  Between conversions the CALLER may    *)
+(* build another table of the same dtype ("fresh"), rename the fields of the        *)
+(* current array in place ("mut_names": x.dtype.names = ...), change its shape      *)
+(* ("mut_shape") or lock it ("mut_lock").  numpy lets an array and its copies /     *)
+(* views share one dtype object, so a rename may show on arrays of the SAME lineage; *)
+(* it must never show on an array of another lineage, and a conversion always       *)
+(* returns the field structure of ITS argument.                                     *)
 EXTENDS VU
 
 CONSTANT MachineLE          \* TRUE on a little-endian machine
@@ -49,6 +64,8 @@ BOKinds  == {"M", "B", "S", "N"}
 BOLayouts == {"contig", "slice", "strided", "reversed", "column", "fortran", "zerod", "recview"}
 BOSpells == {"<", ">", "=", "|"}
 BOFns    == {"native", "big", "little", "swap", "rnative"}   \* rnative = recfile.Util.to_native_inplace
+BOCallerFns == {"fresh", "mut_names", "mut_shape", "mut_lock"}   \* steps of the caller between conversions
+BOWrites == {"w", "ro", "roview", "frombuf"}
 
 BONative      == IF MachineLE THEN "<" ELSE ">"
 BOResolve(ch) == IF ch = "=" THEN BONative ELSE ch            \* "<" ">" "|" stand for themselves
@@ -68,8 +85,8 @@ BOLayContiguous(layout, plain) == layout \in {"contig", "slice", "fortran", "zer
 \* the array is a window onto a parent buffer that has other bytes
 BOLayWindow(layout) == layout \notin {"contig", "fortran"}
 \* what the initial array of a case must look like (lay = observed flags)
-BOLayoutBuilt(layout, plain, lay) ==
-    CASE layout = "contig"   -> lay.owns /\ lay.cc
+BOLayoutBuilt(layout, plain, wr, lay) ==
+    CASE layout = "contig"   -> (lay.owns \/ wr \in {"roview", "frombuf"}) /\ lay.cc
       [] layout = "slice"    -> ~lay.owns /\ lay.cc /\ lay.nd >= 1
       [] layout = "strided"  -> ~lay.owns /\ ~lay.cc /\ ~lay.fc /\ ~lay.neg
       [] layout = "reversed" -> ~lay.owns /\ ~lay.cc /\ ~lay.fc /\ lay.neg
@@ -106,7 +123,7 @@ BODescrNative(kinds) == [i \in DOMAIN kinds |-> IF BOIsMulti(kinds, i) THEN BONa
 \* ---------------------------------------------------------------------------------
 \* Acceptance of one observed step  pre --op--> post  (clauses named after the
 \* statement).  op = [fn, inplace, keep];  an observed array is
-\* [decl, phys, sig, shp, grp, hash].   Used by the trace module on the real code and by
+\* [decl, phys, sig, shp, grp, hash, w, lin].   Used by the trace module on the real code and by
 \* the model checker on the constructive model below (SpecAccepted).
 BOStepFailing(kinds, pre, op, post) ==
     LET n   == Len(pre.arrs)
@@ -117,7 +134,11 @@ BOStepFailing(kinds, pre, op, post) ==
         M   == BOMultis(kinds)
         same == post.res = pre.res                         \* the result IS the argument
     IN
-    IF post.err # "none" THEN {"unexpected_error"}
+    IF post.err # "none"
+    THEN \* a call may be refused only when asked to work in place on a non-writable array ...
+         (IF op.inplace /\ ~a.w THEN {} ELSE {"unexpected_error"}) \cup
+         \* ... and a refused call is a stutter step: bytes, dtypes, flags, buffers of all arrays as before
+         (IF post.res = pre.res /\ post.arrs = pre.arrs /\ post.rest = pre.rest THEN {} ELSE {"rejected_call_changes_nothing"})
     ELSE
       \* object / buffer identity
       (IF op.inplace
@@ -146,26 +167,52 @@ BOStepFailing(kinds, pre, op, post) ==
         (IF \A i \in (1..nf) \ M : r.phys[i] = "|" /\ BOResolve(r.decl[i]) = "|"
            THEN {} ELSE {"nobyteorder_field_untouched"}))
 
+\* a step of the CALLER (op.fn \in BOCallerFns) seen on the real arrays
+BOCallerFailing(kinds, spell, pre, op, post) ==
+    LET n == Len(pre.arrs) IN
+    IF post.err # "none" THEN {"init_mismatch"}                                  \* the harness could not do it
+    ELSE IF op.fn = "fresh" THEN
+        IF /\ Len(post.arrs) = n + 1 /\ post.res = n + 1 /\ post.rest = pre.rest
+           /\ \A j \in 1..n : post.arrs[j] = pre.arrs[j]
+           /\ LET f == post.arrs[n + 1] IN
+                /\ f.grp = n + 1 /\ f.lin = n + 1 /\ Len(f.decl) = Len(kinds) /\ Len(f.phys) = Len(kinds)
+                /\ \A i \in DOMAIN kinds : BOResolve(f.decl[i]) = BODeclOf(kinds[i], spell) /\ f.phys[i] = BODeclOf(kinds[i], spell)
+        THEN {} ELSE {"init_mismatch"}
+    ELSE IF ~(post.res = pre.res /\ Len(post.arrs) = n /\ post.rest = pre.rest) THEN {"init_mismatch"}
+    ELSE LET c == pre.arrs[pre.res] IN
+         \* renaming / reshaping / locking ONE array never shows on an array derived from another table ...
+         (IF \A j \in 1..n : (j # pre.res /\ pre.arrs[j].lin # c.lin) => post.arrs[j] = pre.arrs[j]
+            THEN {} ELSE {"caller_mutation_reaches_unrelated_array"}) \cup
+         \* ... and on its own relatives (which numpy lets share the dtype object) at most as a rename
+         (IF \A j \in 1..n : (j # pre.res /\ pre.arrs[j].lin = c.lin) => [post.arrs[j] EXCEPT !.sig = pre.arrs[j].sig] = pre.arrs[j]
+            THEN {} ELSE {"caller_mutation_changes_more_than_names"})
+
+BOAnyStepFailing(kinds, spell, pre, op, post) ==
+    IF op.fn \in BOFns THEN BOStepFailing(kinds, pre, op, post) ELSE BOCallerFailing(kinds, spell, pre, op, post)
+
 \* statement clauses that relate two consecutive steps; evaluated on the raw-byte digests
 \* (they follow from the step clauses on the abstraction - IdempotentThm, SwapTwiceThm in
 \* ByteOrderMC - so this also cross-checks that the abstraction loses nothing)
 BOSameFn(f, g) == f = g \/ {f, g} = {"native", "rnative"}
 BOPairFailing(kinds, s0, op1, s1, op2, s2) ==
     LET a0 == s0.arrs[s0.res]   r1 == s1.arrs[s1.res]   r2 == s2.arrs[s2.res] IN
+    IF ~(op1.fn \in BOFns /\ op2.fn \in BOFns /\ s1.err = "none" /\ s2.err = "none") THEN {}    \* two conversions that happened
+    ELSE
     (IF op1.fn = "swap" /\ op2.fn = "swap" /\ r2.hash # a0.hash THEN {"swap_twice_restores_bytes"} ELSE {}) \cup
     (IF op1.fn # "swap" /\ BOSameFn(op1.fn, op2.fn) /\ ~op1.keep /\ ~op2.keep
         /\ (r2.hash # r1.hash \/ [i \in DOMAIN r2.decl |-> BOResolve(r2.decl[i])] # [i \in DOMAIN r1.decl |-> BOResolve(r1.decl[i])])
      THEN {"idempotent"} ELSE {})
 
 \* the initial array built by the harness must be what the case says (else the harness is wrong)
-BOInitFailing(kinds, spell, layout, plain, s0) ==
+BOInitFailing(kinds, spell, layout, plain, wr, s0) ==
     IF /\ s0.res = 1 /\ Len(s0.arrs) = 1 /\ s0.err = "none"
        /\ Len(s0.arrs[1].decl) = Len(kinds) /\ Len(s0.arrs[1].phys) = Len(kinds)
        /\ \A i \in DOMAIN kinds : /\ BOResolve(s0.arrs[1].decl[i]) = BODeclOf(kinds[i], spell)
                                   /\ s0.arrs[1].phys[i] = BODeclOf(kinds[i], spell)
-       /\ s0.arrs[1].grp = 1
+       /\ s0.arrs[1].grp = 1 /\ s0.arrs[1].lin = 1
        /\ s0.rest = "intact"
-       /\ layout \in BOLayouts /\ BOLayoutBuilt(layout, plain, s0.lay)
+       /\ wr \in BOWrites /\ s0.arrs[1].w = (wr = "w")
+       /\ layout \in BOLayouts /\ BOLayoutBuilt(layout, plain, wr, s0.lay)
        /\ (plain => Len(kinds) = 1 /\ kinds[1] # "N")
     THEN {} ELSE {"init_mismatch"}
 
@@ -205,6 +252,11 @@ BODescrFailing(kinds, s) ==
 \*   RetypeAlways = FALSE: a deviating variant that assigns .dtype only to C-/F-contiguous arrays and
 \*                         otherwise returns  outdata.view(newdtype)  - another object, the caller's
 \*                         array keeping the old dtype over swapped bytes.
+\*   SwapFirst = TRUE    : the bytes are swapped first and the dtype assigned afterwards (the code as it
+\*                         is): ndarray.byteswap(True) raises for a non-writable array before anything
+\*                         has changed;
+\*   SwapFirst = FALSE   : a deviating variant of numpy_util.byteswap that, in place, assigns the dtype
+\*                         first: the refused swap leaves the new dtype over unswapped bytes.
 BOMechDoSwap(kinds, v, fn, FixedDetect, NestedDetect) ==
     LET D(i) == IF kinds[i] = "N" /\ ~NestedDetect THEN "|" ELSE BOResolve(v.decl[i])
         F    == IF FixedDetect THEN {i \in DOMAIN kinds : D(i) # "|"} ELSE DOMAIN kinds
@@ -222,12 +274,17 @@ BOMechConvert(kinds, v, fn, keep, FixedDetect, NestedDetect) ==
 
 \* one call seen as objects: what is returned (decl, phys), whether it IS the argument, and the
 \* dtype the argument object has afterwards
-BOMechStep(kinds, contiguous, v, op, FixedDetect, NestedDetect, RetypeAlways) ==
+BOMechStep(kinds, contiguous, writable, v, op, FixedDetect, NestedDetect, RetypeAlways, SwapFirst) ==
     LET sw     == BOMechDoSwap(kinds, v, op.fn, FixedDetect, NestedDetect)
         c      == BOMechConvert(kinds, v, op.fn, op.keep, FixedDetect, NestedDetect)
         viewed == sw /\ op.inplace /\ ~op.keep /\ ~RetypeAlways /\ ~contiguous /\ op.fn # "rnative"
         old    == [i \in DOMAIN kinds |-> BOResolve(v.decl[i])]
-    IN [decl |-> c.decl, phys |-> c.phys,
-        same |-> op.inplace /\ ~viewed,
-        argdecl |-> IF op.inplace /\ ~viewed THEN c.decl ELSE old]
+        refused == sw /\ op.inplace /\ ~writable                        \* ndarray.byteswap(True) raises
+        early  == ~SwapFirst /\ ~op.keep /\ op.fn # "rnative"             \* dtype already assigned by then
+    IN IF refused
+       THEN [rejected |-> TRUE, decl |-> IF early THEN c.decl ELSE old, phys |-> v.phys, same |-> TRUE,
+             argdecl |-> IF early THEN c.decl ELSE old]
+       ELSE [rejected |-> FALSE, decl |-> c.decl, phys |-> c.phys,
+             same |-> op.inplace /\ ~viewed,
+             argdecl |-> IF op.inplace /\ ~viewed THEN c.decl ELSE old]
 =============================================================================
